@@ -934,6 +934,12 @@ def _load_data(rec, context):
                 cid = PixelComponentID(comp.axis, cid.label, parent=cid.parent)
                 comps[icomp] = (cid, comp)
 
+        # Arithmetic links (e.g. data.id['x'] * 2) do not serialize the ID
+        # they compute, so point the link back to the derived component's ID
+        # as was the case in the original dataset.
+        if isinstance(comp, DerivedComponent) and comp.link.get_to_id().parent is None:
+            comp.link.set_to_id(cid)
+
         result.add_component(comp, cid)
 
     assert result._world_component_ids == []
